@@ -62,7 +62,7 @@ theorem step_abs (s : St) (t : Nat) (h : Inv s) :
     ∨ (∃ v id len, s.thr t = .pPublish v id len ∧ abs (step s t) = abs s ++ [v] ∧ (abs s).length < s.N
           ∧ (step s t).thr t = .pLen id)
     ∨ (∃ id idx g, s.thr t = .rPub id idx g ∧ abs (step s t) = abs s ++ [s.buf idx] ∧ (abs s).length < s.N
-          ∧ ∃ r, (step s t).thr t = .done (.pubIdx (some r)))
+          ∧ (step s t).thr t = .rLen g)
     ∨ (∃ id v, s.thr t = .cRelease id v ∧ abs s = v :: abs (step s t) ∧ (step s t).thr t = .done (.got v)) := by
   have hlen := abs_length s h
   have := h.hHT; have := h.accLen
@@ -89,7 +89,7 @@ theorem step_abs (s : St) (t : Nat) (h : Inv s) :
         have hg : g = id :=
           eq_of_mod_eq_of_window (a := s.tail) (N := s.N) (by omega) (by omega) (by omega) (by omega) (by omega)
         omega
-      · exact ⟨max 1 (g - s.head), by simp [step, hl, he]⟩
+      · simp [step, hl, he]
     · left
       simp only [step, hl, he, if_false]
       split <;> exact abs_congr rfl rfl
@@ -117,7 +117,7 @@ theorem step_done_origin (s : St) (t : Nat) (r : Res) (h : (step s t).thr t = .d
     s.thr t = .done r ∨
     (∃ v id rsv w, s.thr t = .pRecede v id rsv w ∧ s.enqTail = id + 1 ∧ r = .full) ∨
     (∃ id, s.thr t = .pLen id ∧ r = .sent (max 1 (id + 1 - s.head))) ∨
-    (∃ id idx g, s.thr t = .rPub id idx g ∧ s.tail = g ∧ r = .pubIdx (some (max 1 (g - s.head)))) ∨
+    (∃ g, s.thr t = .rLen g ∧ r = .pubIdx (some (max 1 (U32.wsub (U32.wrap g) (U32.wrap s.head))))) ∨
     (∃ id idx g, s.thr t = .rCan id idx g ∧ s.enqTail = g + 1 ∧ r = .canIdx true) ∨
     (∃ hh w, s.thr t = .cChkTail hh w ∧ s.tail = hh ∧ r = .empty) ∨
     (∃ id v, s.thr t = .cRelease id v ∧ s.head = id ∧ r = .got v) ∨
